@@ -319,7 +319,7 @@ CLAIMED = {
         "technique": "Coq proof (stream invariant over a fuelled evaluator model with the keyword model plugged in; fuel sufficiency) + differential correspondence",
     },
     "C01": {
-        "text": ("13 theorems (Coq, no axioms) over the evaluator model Eval.v (processor.py's query side, Python "
+        "text": ("15 theorems (Coq, no axioms) over the evaluator model Eval.v (processor.py's query side, Python "
                  "generators as streams): C01_required_sem_partial - for every non-null document and every path of "
                  "the fragment (key incl. Array-of-Hashes pass-through, index, slice, anchor, all five candidate "
                  "loops of a search on '.', a named attribute or a descendant path, all nine operators, inversion, "
@@ -332,8 +332,10 @@ CLAIMED = {
                  "theorem); C01_optional_on_existing_partial "
                  "(optional = required as streams, nothing created; guard excludes F16b, a branch lacking a creatable "
                  "segment; F10 - the walk stopping at an intermediate null - is repaired and its clause gone); exists() iff the "
-                 "required query yields a node; dot and slash texts of the same segments give equal escaped "
-                 "segments (from C08; the step to equal prepared paths is not proved).  Tie: model vs "
+                 "required query yields a node; C01_notation - dot and slash texts of the same segments (every "
+                 "segment list C08's wf accepts, all kinds) prepare alike and the required query and exists() give "
+                 "EQUAL streams: same results, order, coordinates (equal escaped segments from C08; the unescaped "
+                 "twin parse is read by the required driver for the segment type / collector attributes only).  Tie: model vs "
                  "implementation on (location, identity) lists, plus the EXTRACTED spec and an independent "
                  "Python reference as further opinions, on every case."),
         "design_ref": "DESIGN.md section 4 (C01), Appendix C, docs/C01.md",
